@@ -57,6 +57,22 @@ func (self ValueString) Fields() (map[string]*Value, *Interrupt) {
 			test := args[0].(ValueString).Inner
 			return NewValueBool(strings.Contains(self.Inner, test)), nil
 		}),
+		"starts_with": NewValueBuiltinFunction(func(executor Executor, cancelCtx *context.Context, span errors.Span, args ...Value) (*Value, *Interrupt) {
+			test := args[0].(ValueString).Inner
+			return NewValueBool(strings.HasPrefix(self.Inner, test)), nil
+		}),
+		"substring": NewValueBuiltinFunction(func(executor Executor, cancelCtx *context.Context, span errors.Span, args ...Value) (*Value, *Interrupt) {
+			upper := args[0].(ValueInt).Inner
+			length := int64(len(self.Inner))
+			// negative bounds count from the end
+			if upper < 0 {
+				upper += length
+			}
+			if upper < 0 || upper >= length {
+				return nil, NewThrowInterrupt(span, "index out of range")
+			}
+			return NewValueString(self.Inner[0:upper]), nil
+		}),
 		"to_lower": NewValueBuiltinFunction(func(executor Executor, cancelCtx *context.Context, span errors.Span, args ...Value) (*Value, *Interrupt) {
 			return NewValueString(strings.ToLower(self.Inner)), nil
 		}),
